@@ -465,7 +465,26 @@ type msgpDec interface {
 
 func msgpTotal(v msgpDec, b []byte) {
 	_, _ = v.UnmarshalMsg(b)
+	if declaresHuge(b) {
+		// the streaming reader of the msgp library allocates a declared bin32 / str32 / ext32 length before
+		// reading it: a 10-byte input declaring 2.6 GB returns an error only after seconds of allocation.
+		// That is slowness in a dependency, not a panic; such inputs go to UnmarshalMsg only.
+		return
+	}
 	_ = v.DecodeMsg(msgp.NewReader(bytes.NewReader(b)))
+}
+
+// declaresHuge: does a 32-bit length prefix (bin32 c6, ext32 c9, str32 db, array32 dd, map32 df) declare more than 1 MiB?
+func declaresHuge(b []byte) bool {
+	for i := 0; i+5 <= len(b); i++ {
+		switch b[i] {
+		case 0xc6, 0xc9, 0xdb, 0xdd, 0xdf:
+			if uint32(b[i+1])<<24|uint32(b[i+2])<<16|uint32(b[i+3])<<8|uint32(b[i+4]) > 1<<20 {
+				return true
+			}
+		}
+	}
+	return false
 }
 
 func evalTotal(c Case) *pbt.Fail {
@@ -588,6 +607,7 @@ func TestProp(t *testing.T) {
 		"random: float32 types (k/100 and 1/n members, arbitrary bit patterns, specials), Dimensions, FocusDistance, Ahash/PHash64/PHash256 incl. Encode/Decode on sub-slices, UUID (6 text forms x case, binary, JSON), decoders on arbitrary / near-valid / MessagePack-like bytes. " +
 		"oracles: identity for valid values, Marshal(Unmarshal(Marshal(v))) == Marshal(v) for every v whose text decodes, receivers pre-set to a different value, decoders return. " +
 		"non-trivial = documented member / representable number / non-empty decoder input; distinct by (type, value or text)")
+	rec.Assume("MessagePack inputs that declare a 32-bit length above 1 MiB are given to UnmarshalMsg only: the msgp library's streaming reader allocates the declared length up front (slow, but an error, not a panic)")
 	rec.Assume("PHash64/PHash256.Decode(src) and Encode(dst) have no error result and, like encoding/binary, require len >= 8 / 32; they are exercised only within that precondition")
 	rec.Assume("documented members: ImageType 0..23, MeteringMode {0..6,255}, ExposureMode 0..2, ExposureProgram 0..9, every ExposureBias encoding, floats that are k/100 (k <= 100000), exposure times 1/n (2 <= n <= 8000, the mechanical-shutter range; ExposureTime has no decoder, so only its printed form is checked, and beyond n = 11745 float32 storage makes the printed denominator ambiguous)")
 	pbt.RegressDir(t, rec)
